@@ -230,8 +230,9 @@ def lit(v):
 
 def place(sheet, args, blank_as_set=False):
     """lay the arguments of one formula out on a sheet (every range in its own block of columns);
-    returns the argument texts.  Empty cells of ranges are left out of the dictionary (build_ranges
-    creates them holding '') or, with blank_as_set, written with set_cell_value(addr, '')."""
+    returns the argument texts.  The two kinds of empty cell: `None` = never stored (left out of the
+    dictionary; build_ranges creates the member holding None, it evaluates to BLANK), `''` = a cell
+    explicitly emptied with set_cell_value(addr, '') (evaluates to Text(''))."""
     texts = []
     c0 = -BLOCK
     for a in args:
@@ -240,8 +241,6 @@ def place(sheet, args, blank_as_set=False):
             rows = a[1]
             for r, row in enumerate(rows):
                 for c, v in enumerate(row):
-                    if v == '' and isinstance(v, str) and not blank_as_set:
-                        continue
                     sheet.put(addr(r, c0 + c), v)
             texts.append(f'{addr(0, c0)}:{addr(len(rows) - 1, c0 + len(rows[0]) - 1)}')
             c0 += max(0, len(rows[0]) + 1 - BLOCK)
@@ -275,7 +274,8 @@ def fill(rng, pattern, r, c):
         row = []
         for _ in range(c):
             p = next(it)
-            row.append(rand_num(rng) if p == 'N' else '' if p == 'B' else rng.choice(NONNUM))
+            row.append(rand_num(rng) if p == 'N' else rng.choice(NONNUM) if p == 'T' else
+                       None if p == 'Z' else '' if p == 'E' else rng.choice([None, '']))
         rows.append(row)
     return rows
 
@@ -376,8 +376,12 @@ class Gen:
         rng = self.rng
         shapes = [(r, c) for r in range(1, 4) for c in range(1, 4)]
         n_formula = 0
+        small4 = 6 if self.thorough else 4
         for r, c in shapes:
             pats = list(itertools.product('NBT', repeat=r * c))
+            if r * c <= small4:
+                # both kinds of empty cell (Z never stored -> BLANK, E explicitly '') exhaustively
+                pats = list(itertools.product('NZET', repeat=r * c))
             full = True
             if not self.thorough and len(pats) > 800:
                 pats = rng.sample(pats, 500)
@@ -426,7 +430,7 @@ class Gen:
                 rows = rand_rows(rng, r, c, pn=0.5 + rng.random() * 0.3)
                 sheet = Sheet()
                 whole = ['R', rows]
-                place(sheet, [whole], blank_as_set=True)      # every cell exists, empty ones hold ''
+                place(sheet, [whole])      # '' cells are set explicitly, None cells are never stored
                 big = len(ts) > 400
                 for t in ts:
                     order = list(t)
@@ -559,12 +563,13 @@ class Gen:
     def known_regions(self):
         rng = self.rng
         # D1403: a run of more than MAX_EMPTY empty cells
-        rows = [[''] * 12 for _ in range(12)]
+        rows = [[None] * 12 for _ in range(12)]
         rows[0][0], rows[11][11] = 2, 4
-        col = [['']] * 150
-        col = [list(x) for x in col]
+        col = [[None] for _ in range(150)]
         col[0][0], col[149][0] = 2, 4
-        for rr in (rows, col):
+        rows2 = [[rng.choice([None, '']) for _ in range(12)] for _ in range(12)]
+        rows2[0][0], rows2[11][11] = 2, 4
+        for rr in (rows, col, rows2):
             fa = [(fn, [['R', rr]]) for fn in ALLFN]
             for fn, args in fa:
                 sheet = Sheet()
@@ -608,7 +613,7 @@ def addressed(args):
 
 
 def dom_cell(v):
-    return is_num(v) or (isinstance(v, str) and (v == '' or v in NONNUM))
+    return v is None or is_num(v) or (isinstance(v, str) and (v == '' or v in NONNUM))
 
 
 def rectangular(rows):
@@ -630,7 +635,7 @@ def in_domain(case):
                 continue
             if a[2] == 'n':
                 return False
-            if not (v is None or dom_cell(v)):
+            if not dom_cell(v):
                 return False
         else:
             return False
@@ -641,7 +646,7 @@ def longest_empty_run(rows):
     best = run = 0
     for row in rows:
         for v in row:
-            if isinstance(v, str) and v == '':
+            if v is None or (isinstance(v, str) and v == ''):
                 run += 1
                 best = max(best, run)
             else:
@@ -795,7 +800,7 @@ def replay_case(path):
 def run(ctx):
     import xlcalculator  # noqa: F401
     res = Result()
-    res.rule = ('every fill pattern of rectangles <= 3x3 over {number, empty, non-numeric text} (thorough: all '
+    res.rule = ('every fill pattern of rectangles <= 3x3 over {number, empty, non-numeric text} - an empty cell being either never stored (BLANK placeholder) or explicitly set to the empty string, both kinds exhaustively up to 4 (thorough 6) cells - (thorough: all '
                 '21297; quick: all up to 2x3/3x2 and 500 of the 3x3 ones), random rectangles up to 12x12, every '
                 'partition of rectangles up to 3x3 (thorough 3x4) into sub-ranges and single cells, every order '
                 'of <= 4 arguments, cells permuted inside ranges, error items, all pairs of SUMPRODUCT shapes; '
